@@ -1,7 +1,8 @@
+\* the model of the code as it is now (both repairs are in /repo): cases are emitted
 CONSTANTS
   Deep = TRUE
-  FixFmt0 = FALSE
-  FixSymInv = FALSE
+  FixFmt0 = TRUE
+  FixSymInv = TRUE
 SPECIFICATION Spec
 INVARIANTS DesignOK EmitCase
 CHECK_DEADLOCK FALSE
